@@ -211,7 +211,214 @@ def generate(rng, tier, scale=1):
         else:  # declared size differs from the blocks
             blens = [max(1, size + rng.choice([-1, 1]))] * m
             cases.append(_mk_ola(rng, size, hop, m, normalize, wkind, num, blens=blens, size_given=True))
+    # --- stft wrapper ------------------------------------------------------------------------------
+    nst = (450 if quick else 9000) * scale
+    for i in range(nst):
+        kind = ("plain", "plain", "identity", "identity", "bad", "ola_none", "plain_np")[i % 7]
+        cases.append(_mk_stft(rng, kind))
     return cases
+
+
+# ----------------------------------------------------------------------------------------------
+# stft cases
+# ----------------------------------------------------------------------------------------------
+FN1 = ["id", "rev", "neg", "scale", "shift", "rot", "cumsum"]
+FN2 = ["addsize", "scalesize"] + FN1
+STYLES = ["direct", "decorator", "partial"]
+
+
+def _cola_wnd(rng, size, hop):
+    """a window of `size` items whose hop-shifted copies sum to one (hop | size)"""
+    c = size // hop
+    w = [None] * size
+    for j in range(hop):
+        parts = [F(rng.randint(-2, 6), rng.choice([1, 2, 4])) for _ in range(c - 1)]
+        parts.append(1 - sum(parts))
+        rng.shuffle(parts)
+        for i in range(c):
+            w[j + i * hop] = enc(parts[i])
+    return w
+
+
+def _split_kwargs(rng, items, style, overrides):
+    """distribute (key, value) pairs over the keyword dicts of the chosen calling style and the final call;
+    `overrides` are (key, stale value) pairs placed at an earlier level than the real value"""
+    nlev = {"direct": 1, "decorator": 1, "partial": rng.choice([2, 2, 3])}[style]
+    levels = [[] for _ in range(nlev + 1)]          # last one = keywords of the wrapper call
+    place = {}
+    for k, v in items:
+        lv = rng.randrange(nlev + 1) if rng.random() < 0.8 else nlev
+        place[k] = lv
+        levels[lv].append([k, v])
+    for k, v in overrides:
+        if k in place and place[k] > 0:
+            lv = rng.randrange(place[k])
+            levels[lv].append([k, v])
+    for l in levels:
+        rng.shuffle(l)
+    return levels[:-1], levels[-1]
+
+
+def _mk_stft(rng, kind):
+    num = rng.choice(["int", "frac", "frac", "float"])
+    size = rng.randint(1, 6)
+    hop = rng.choice([None, size, rng.randint(1, size), rng.randint(1, size)])
+    objs = {}
+    items = [["size", size]]
+    overrides = []
+    style = rng.choice(STYLES)
+    identity = kind == "identity"
+    if identity:
+        divs = [h for h in range(1, size + 1) if size % h == 0]
+        hop = rng.choice(divs)
+    if hop is not None or rng.random() < 0.2:
+        items.append(["hop", hop if hop is not None else size])
+    eff_hop = hop if hop is not None else size
+    # analysis window
+    wa = rng.choice(["absent", "none", "list", "callable", "gen", "tuple"])
+    if identity:
+        wa = rng.choice(["absent", "none", "cola", "ones"])
+    if wa == "none":
+        items.append(["wnd", None])
+    elif wa in ("cola", "ones"):
+        w = _cola_wnd(rng, size, eff_hop) if wa == "cola" else [1] * size
+        objs["@wa"] = {"type": "wnd", "wnd": {"kind": "seq", "w": w}, "wkind": "list"}
+        items.append(["wnd", "@wa"])
+    elif wa != "absent":
+        if wa == "callable":
+            wnd = {"kind": "callable", "table": [[n, _rand_wnd(rng, n, num)] for n in sorted({size, eff_hop, size + 1})],
+                   "default": None}
+        else:
+            wnd = {"kind": "seq", "w": _rand_wnd(rng, size, num)}
+        objs["@wa"] = {"type": "wnd", "wnd": wnd, "wkind": wa}
+        items.append(["wnd", "@wa"])
+        if rng.random() < 0.3:
+            objs["@wa_old"] = {"type": "wnd", "wnd": {"kind": "seq", "w": _rand_wnd(rng, size, num)}, "wkind": "list"}
+            overrides.append(["wnd", "@wa_old"])
+    # processing steps
+    for role, table in (("before", FN1), ("transform", FN2), ("inverse_transform", FN2), ("after", FN1)):
+        r = rng.random()
+        if identity or r < 0.45:
+            items.append([role, None])
+        elif r < 0.85 or kind != "plain_np":
+            tag = "@" + role
+            objs[tag] = {"type": "fn", "name": rng.choice(table), "arg": _rand_val(rng, "frac" if num == "float" else num)}
+            items.append([role, tag])
+            if rng.random() < 0.25:
+                objs[tag + "_old"] = {"type": "fn", "name": rng.choice(table), "arg": 1}
+                overrides.append([role, tag + "_old"])
+        # else: left unspecified -> numpy default
+    objs["@f"] = {"type": "fn", "name": "id" if identity else rng.choice(FN1),
+                  "arg": _rand_val(rng, "frac" if num == "float" else num)}
+    # overlap-add strategy and its options
+    r = rng.random()
+    ola = "@spy" if r < 0.45 else "@list" if r < 0.8 else None if r < 0.95 else "absent"
+    if identity:
+        ola = rng.choice(["@spy", "@list"])
+    if kind == "ola_none":
+        ola = None
+    if ola != "absent":
+        items.append(["ola", ola])
+    objs["@spy"] = {"type": "ola", "name": "spy"}
+    objs["@list"] = {"type": "ola", "name": "list"}
+    normalize = None
+    if ola in ("@spy", "@list") or kind in ("ola_none", "bad"):
+        if identity:
+            mode = rng.choice(["rect_norm", "cola_nonorm", "ones_nonorm"]) if wa in ("absent", "none", "ones") else "ones_nonorm"
+            if mode == "rect_norm":
+                if rng.random() < 0.5:
+                    items.append(["ola_normalize", True])
+                if rng.random() < 0.5:
+                    items.append(["ola_wnd", None])
+                normalize = True
+            else:
+                w = _cola_wnd(rng, size, eff_hop) if mode == "cola_nonorm" else [1] * size
+                if mode == "ones_nonorm" and wa != "cola" and eff_hop != size:
+                    w = _cola_wnd(rng, size, eff_hop)
+                objs["@ws"] = {"type": "wnd", "wnd": {"kind": "seq", "w": w}, "wkind": "list"}
+                items.append(["ola_wnd", "@ws"])
+                items.append(["ola_normalize", False])
+                normalize = False
+        else:
+            if rng.random() < 0.6:
+                normalize = rng.random() < 0.5
+                items.append(["ola_normalize", normalize])
+            wk = rng.choice(["absent", "none", "list", "list", "callable", "gen"])
+            if wk == "none":
+                items.append(["ola_wnd", None])
+            elif wk != "absent":
+                if wk == "callable":
+                    wnd = {"kind": "callable", "table": [[n, _rand_wnd(rng, n, num)] for n in sorted({size, eff_hop})], "default": None}
+                else:
+                    wnd = {"kind": "seq", "w": _rand_wnd(rng, size if rng.random() < 0.93 else size + 1, num)}
+                objs["@ws"] = {"type": "wnd", "wnd": wnd, "wkind": wk}
+                items.append(["ola_wnd", "@ws"])
+                if rng.random() < 0.2:
+                    objs["@ws_old"] = {"type": "wnd", "wnd": {"kind": "seq", "w": [1] * size}, "wkind": "list"}
+                    overrides.append(["ola_wnd", "@ws_old"])
+            r = rng.random()
+            if r < 0.08:
+                items.append(["ola_hop", rng.randint(1, size)])
+            elif r < 0.12:
+                items.append(["ola_size", rng.choice([size, size + 1])])
+            elif r < 0.16:
+                items.append(["ola_" + rng.choice(["foo", "ola_wnd", "siz", ""]), rng.randint(0, 3)])
+    if kind == "bad":
+        b = rng.choice(["unknown", "unknown2", "no_size", "hop_gt", "hop_none", "ola_none_opt", "wa_size", "wa_scalar", "wa_empty"])
+        if b == "unknown":
+            items.append([rng.choice(["foo", "olawnd", "ola", "window", "Size", "ol_a_x", "_ola_wnd"]) if ola == "absent" else
+                          rng.choice(["foo", "olawnd", "window", "Size", "ol_a_x", "_ola_wnd"]), rng.randint(0, 3)])
+        elif b == "unknown2":
+            items.append(["zzz", 1])
+            items.append(["ola_zzz", 2])
+        elif b == "no_size":
+            items = [it for it in items if it[0] != "size"]
+        elif b == "hop_gt":
+            items = [it for it in items if it[0] != "hop"] + [["hop", size + rng.randint(1, 3)]]
+        elif b == "hop_none":
+            items = [it for it in items if it[0] != "hop"] + [["hop", None]]
+        elif b == "ola_none_opt":
+            items = [it for it in items if it[0] != "ola"] + [["ola", None], ["ola_" + rng.choice(["wnd", "normalize", "x"]), None]]
+        else:
+            wnd = {"wa_size": {"kind": "seq", "w": _rand_wnd(rng, size + rng.choice([-1, 1, 2]), num)},
+                   "wa_scalar": {"kind": "scalar"}, "wa_empty": {"kind": "seq", "w": []}}[b]
+            objs["@wa"] = {"type": "wnd", "wnd": wnd, "wkind": "list"}
+            items = [it for it in items if it[0] != "wnd"] + [["wnd", "@wa"]]
+    chain, call = _split_kwargs(rng, items, style, overrides)
+    n = rng.choice([0, 1, size - 1, size, size + 1, rng.randint(0, 14), size + 2 * eff_hop, size + 3 * eff_hop - 1])
+    sig = [_rand_val(rng, num) for _ in range(max(0, n))]
+    used = {v for d in chain + [call] for _, v in d if isinstance(v, str)} | {"@f"}
+    c = {"entry": "stft", "style": style, "chain": chain, "call": call, "func": "@f", "sig": sig,
+         "objs": {k: v for k, v in objs.items() if k in used}, "num": num, "kind": kind}
+    c["regime"] = _regime_stft(c)
+    return c
+
+
+def _regime_stft(c):
+    """exact iff no normalisation is requested anywhere and every number involved is a small dyadic rational"""
+    try:
+        nums = list(c["sig"])
+        for o in c["objs"].values():
+            if o["type"] == "wnd":
+                w = o["wnd"]
+                if w.get("kind") == "seq":
+                    nums += w["w"]
+                elif w.get("kind") == "callable":
+                    for _, l in w["table"]:
+                        nums += l
+            elif o["type"] == "fn":
+                nums.append(o.get("arg", 0))
+        if not all(_is_dyadic(dec(x), 12) for x in nums):
+            return "float"
+        merged = {}
+        for d in c["chain"] + [c["call"]]:
+            for k, v in d:
+                merged[k] = v
+        if merged.get("ola_normalize", True) not in (False, 0, None):
+            return "float"
+        return "exact"
+    except Exception:
+        return "float"
 
 
 # ----------------------------------------------------------------------------------------------
@@ -276,6 +483,133 @@ def _py_blks(c):
     return blks
 
 
+# --- stft -----------------------------------------------------------------------------------------
+def _fn_table(num):
+    def rot(b):
+        b = list(b)
+        return b[1:] + b[:1]
+
+    def cumsum(b):
+        out, acc = [], 0
+        for x in b:
+            acc = acc + x
+            out.append(acc)
+        return out
+    f1 = {
+        "id": lambda b, a: b,
+        "rev": lambda b, a: list(reversed(list(b))),
+        "neg": lambda b, a: [-x for x in b],
+        "scale": lambda b, a: [x * a for x in b],
+        "shift": lambda b, a: [x + a for x in b],
+        "rot": lambda b, a: rot(b),
+        "cumsum": lambda b, a: cumsum(b),
+    }
+    f2 = {
+        "addsize": lambda b, a, n: [x + n for x in b],
+        "scalesize": lambda b, a, n: [x * n for x in b],
+    }
+    return f1, f2
+
+
+def _stft_plan_err(e):
+    msg, kind = str(e), err_kind(e)
+    import re
+    if "Missing 'size'" in msg:
+        return "plan", {"kind": kind, "tag": "missing-size"}
+    if "Hop value" in msg:
+        return "plan", {"kind": kind, "tag": "hop-gt-size"}
+    if "not supported between" in msg:
+        return "plan", {"kind": kind, "tag": "hop-not-comparable"}
+    m = re.match(r"Extra '(.*)' argument with no overlap-add", msg)
+    if m:
+        return "plan", {"kind": kind, "tag": "ola-option-without-ola:" + m.group(1)}
+    m = re.match(r"Unknown '(.*)' extra argument", msg)
+    if m:
+        return "plan", {"kind": kind, "tag": "unknown-key:" + m.group(1)}
+    if "unexpected keyword argument" in msg:
+        return "run", {"kind": kind, "tag": "ola-kwarg"}
+    if "numpy" in msg:
+        return "run", {"kind": "ImportError", "tag": "numpy-default"}
+    return "other", _err_obs(e)
+
+
+def _impl_stft(c):
+    from audiolazy import stft, overlap_add, Stream
+    num = c["num"]
+    rec = {"trace": [], "ola_kwargs": None}
+    f1, f2 = _fn_table(num)
+    pyobj, tag_of = {}, {}
+
+    def mk_fn(tag, o):
+        name, a = o["name"], _py(o.get("arg", 0), num)
+
+        def spy(blk, *extra):
+            rec["trace"].append([tag, [enc(x) for x in blk], list(extra)])
+            if name in f2:
+                return f2[name](blk, a, *extra)
+            return f1[name](blk, a)
+        spy.__name__ = "spy_" + tag[1:]
+        return spy
+
+    def canon(v):
+        if v is None or isinstance(v, (bool, int)):
+            return v if not isinstance(v, bool) else int(v)
+        return tag_of.get(id(v), "<object>")
+
+    def spy_ola(blks, **kw):
+        rec["ola_kwargs"] = [[k, canon(v)] for k, v in kw.items()]
+        return overlap_add.list(blks, **kw)
+
+    for tag, o in c["objs"].items():
+        if o["type"] == "fn":
+            pyobj[tag] = mk_fn(tag, o)
+        elif o["type"] == "wnd":
+            pyobj[tag] = _py_wnd({"wnd": o["wnd"], "wkind": o.get("wkind", "list"), "num": num})
+        elif o["type"] == "ola":
+            pyobj[tag] = spy_ola if o["name"] == "spy" else overlap_add.list
+    for tag, v in pyobj.items():
+        tag_of[id(v)] = tag
+
+    def kw(d):
+        return dict((k, pyobj[v] if isinstance(v, str) else v) for k, v in d)
+
+    sig = [_py(x, num) for x in c["sig"]]
+    obs = {"phase": None, "err": None, "out": None, "blocks": None}
+    try:
+        chain = c["chain"]
+        func = pyobj[c["func"]]
+        if c["style"] == "direct":
+            proc = stft(func, **kw(chain[0]))
+        elif c["style"] == "decorator":
+            proc = stft(**kw(chain[0]))(func)            # what `@stft(**kw)` does
+        else:
+            p = stft(**kw(chain[0]))
+            for d in chain[1:-1]:
+                p = p(**kw(d))
+            proc = p(func, **kw(chain[-1]))
+        obs["phase"] = "call"
+        res = proc(sig, **kw(c["call"]))
+        obs["phase"] = "iter"
+        merged = {}
+        for d in chain + [c["call"]]:
+            merged.update(dict((k, v) for k, v in d))
+        items = []
+        if merged.get("ola", "x") is None:
+            obs["blocks"] = items
+            for b in res:
+                items.append([enc(x) for x in b])       # snapshot at yield time
+        else:
+            obs["out"] = items
+            for x in res:
+                items.append(enc(x))
+    except Exception as e:
+        where, eo = _stft_plan_err(e)
+        obs["err"] = dict(eo, where=where)
+    obs["trace"] = rec["trace"]
+    obs["ola_kwargs"] = rec["ola_kwargs"]
+    return obs
+
+
 def impl(c):
     from audiolazy import overlap_add
     if c["entry"] == "ola":
@@ -295,13 +629,19 @@ def impl(c):
             err = _err_obs(e)
         return {"out": [enc(x) for x in out], "err": err,
                 "floats": sum(1 for x in out if isinstance(x, float))}
+    if c["entry"] == "stft":
+        return _impl_stft(c)
     raise ValueError("unknown entry " + c["entry"])
 
 
 def request(c):
     r = dict(c)
-    for k in ("wkind", "num", "route", "regime"):
+    for k in ("wkind", "num", "route", "regime", "kind"):
         r.pop(k, None)
+    if c["entry"] == "stft":
+        r.pop("style", None)
+        r["chain"] = c["chain"] + ([[]] if c["style"] == "decorator" else [])
+        r["objs"] = dict((t, dict((k, v) for k, v in o.items() if k != "wkind")) for t, o in c["objs"].items())
     return r
 
 
@@ -315,7 +655,87 @@ def _same_list(a, b, regime):
     return all(close(dec(x), dec(y), tol) for x, y in zip(a, b))
 
 
+def _same_blocks(a, b, regime):
+    return a is not None and b is not None and len(a) == len(b) and all(_same_list(x, y, regime) for x, y in zip(a, b))
+
+
+def _compare_stft(c, io, drv):
+    out = []
+    regime = c.get("regime", "float")
+    m, sp = drv["model"], drv["spec"]
+    e = io.get("err")
+    if "phase" not in io:
+        return [("model", "impl observation failed: %r" % (io,)), ("spec", "impl observation failed")]
+    # ---- model -----------------------------------------------------------------------------------
+    if "plan_err" in m:
+        want = m["plan_err"]
+        if e is None or e["where"] != "plan" or io["phase"] != "call" or (e["kind"], e["tag"]) != (want["kind"], want["tag"]):
+            out.append(("model", "wrapper decision differs: impl=%r model=%r" % (e, want)))
+            out.append(("spec", "wrapper accepts / rejects other keywords than the property says: impl=%r expected=%r" % (e, want)))
+        return out
+    plan = m["plan"]
+    if e is not None and e["where"] == "plan":
+        out.append(("model", "wrapper raised %r, model plans %r" % (e, plan)))
+        out.append(("spec", "wrapper rejects keywords the property accepts: %r" % (e,)))
+        return out
+    spy_used = plan["ola"] == "@spy"
+    if spy_used and io["ola_kwargs"] != plan["ola_params"]:
+        out.append(("model", "overlap-add keywords differ: impl=%r model=%r" % (io["ola_kwargs"], plan["ola_params"])))
+    if "run_err" in m:
+        if e is None or e["tag"] != m["run_err"]:
+            out.append(("model", "impl=%r where the model stops with %r" % (e, m["run_err"])))
+    else:
+        run = m["run"]
+        ie = None if e is None else {"kind": e["kind"], "tag": e["tag"]}
+        if ie != run["err"]:
+            out.append(("model", "error differs: impl=%r model=%r" % (e, run["err"])))
+        else:
+            if run["blocks"] is not None or io["blocks"]:
+                if not _same_blocks(io["blocks"] or [], run["blocks"] or [], regime):
+                    out.append(("model", "blocks differ: impl=%r model=%r" % (io["blocks"], run["blocks"])))
+            elif not _same_list(io["out"] or [], run["out"], regime):
+                out.append(("model", "output differs (%s): impl=%r model=%r" % (regime, io["out"], run["out"])))
+            if ie is None:
+                role_tag = dict((k, v) for k, v in plan["blk"])
+                role_tag["func"] = c["func"]
+                want = [[role_tag[r], inp] for blk in run["trace"] for r, inp in blk]
+                got = [[t, inp] for t, inp, _ in io["trace"]]
+                if len(want) != len(got) or any(a[0] != b[0] or not _same_list(a[1], b[1], regime) for a, b in zip(got, want)):
+                    out.append(("model", "processing steps called differently: impl=%r model=%r" % (got[:6], want[:6])))
+                size = role_tag["size"]
+                for t, _, extra in io["trace"]:
+                    if t in (role_tag.get("transform"), role_tag.get("inverse_transform")) and extra != [size]:
+                        out.append(("model", "transform step not called with (blk, size): extra args %r" % (extra,)))
+                        break
+    # ---- spec --------------------------------------------------------------------------------------
+    if sp is None:
+        return out
+    if spy_used and io["ola_kwargs"] is not None:
+        got = dict((k, v) for k, v in io["ola_kwargs"])
+        probe = dict((k, v) for k, v in sp["ola_kwargs"])
+        bad = [k for k in set(got) | set(probe) if got.get(k, "<absent>") != probe.get(k, "<absent>")]
+        if bad:
+            out.append(("spec", "overlap-add is not called with {size, hop} + stripped ola_ options: keys %r impl=%r expected=%r"
+                        % (sorted(bad), io["ola_kwargs"], [kv for kv in sp["ola_kwargs"] if kv[1] != "<absent>"])))
+    if e is None and sp.get("func_inputs") is not None:
+        got = [inp for t, inp, _ in io["trace"] if t == c["func"]]
+        if not _same_blocks(got, sp["func_inputs"], regime):
+            out.append(("spec", "func does not receive transform(before(window * block)): impl=%r expected=%r"
+                        % (got[:4], sp["func_inputs"][:4])))
+    if sp.get("covered") is not None:
+        if e is not None or io["out"] is None:
+            out.append(("spec", "identity stft raised %r" % (e,)))
+        else:
+            bad = [(n, io["out"][n] if n < len(io["out"]) else None, x) for n, x in sp["covered"]
+                   if n >= len(io["out"]) or not close(dec(io["out"][n]), dec(x), 0 if regime == "exact" else TOL)]
+            if bad:
+                out.append(("spec", "identity stft does not reconstruct covered samples (n, got, input): %r" % (bad[:5],)))
+    return out
+
+
 def compare(c, io, drv):
+    if c["entry"] == "stft":
+        return _compare_stft(c, io, drv)
     out = []
     regime = c.get("regime", "float")
     if c["entry"] == "ola":
@@ -337,10 +757,31 @@ def compare(c, io, drv):
 
 
 def nontrivial(c, io):
+    if c["entry"] == "stft":
+        return io.get("err") is None and len(io.get("trace") or []) >= 1
     return io.get("err") is None and len(c.get("blks", [])) >= 1 and len(io.get("out", [])) >= 1
 
 
+def _tally_stft(eng, c, io):
+    eng.count("stft_style", c["style"])
+    eng.count("stft_kind", c.get("kind"))
+    eng.count("stft_regime", c.get("regime"))
+    merged = {}
+    for d in c["chain"] + [c["call"]]:
+        merged.update(dict((k, v) for k, v in d))
+    eng.count("stft_ola", {None: "None", "@spy": "spy(list)", "@list": "list"}.get(merged.get("ola", "absent"), "default(numpy)"))
+    eng.count("stft_wnd", "none" if merged.get("wnd") is None else c["objs"].get(merged["wnd"], {}).get("wkind", "?"))
+    eng.count("stft_steps_used", sum(1 for r in ("before", "transform", "inverse_transform", "after") if isinstance(merged.get(r), str)))
+    eng.count("stft_ola_options", sum(1 for k in merged if k.startswith("ola_")))
+    eng.count("stft_n_blocks", min(8, sum(1 for t, _, _ in (io.get("trace") or []) if t == c["func"])))
+    e = io.get("err")
+    eng.count("stft_impl_error", "none" if e is None else e["tag"].split(":")[0])
+    eng.count("stft_kw_levels", len(c["chain"]))
+
+
 def tally(eng, c, io):
+    if c["entry"] == "stft":
+        return _tally_stft(eng, c, io)
     if c["entry"] != "ola":
         return
     m = len(c["blks"])
